@@ -49,12 +49,14 @@ def norm_roundup(c):
 
 
 def norm_max(c):
-    """(a < b ? b : a), (b > a ? b : a) ... -> MAX(a,b) with sorted operands"""
-    m = re.match(r'^\(\((.+) < (.+)\) \? (.+) : (.+)\)$', c)
+    """(a < b ? b : a), (b > a ? b : a), (a <= b ? b : a), (b <= a ? a : b) ... -> MAX(a,b) with sorted operands"""
+    m = re.match(r'^\(\((.+) (<|<=|>|>=) (.+)\) \? (.+) : (.+)\)$', c)
     if m:
-        a, b, x, y = m.groups()
-        if {x, y} == {a, b} and x == b:
-            return 'MAX(%s)' % ','.join(sorted([a, b]))
+        a, op, b, x, y = m.groups()
+        if {x, y} == {a, b} and x != y:
+            bigger_if_true = b if op in ('<', '<=') else a
+            if x == bigger_if_true:
+                return 'MAX(%s)' % ','.join(sorted([a, b]))
     return c
 
 
@@ -349,10 +351,14 @@ def check_counters(run, db):
     for (ct, short), pat in COUNTERS.items():
         for f in db.find(cls_t=ct, short=short):
             n += 1
-            own = (lambda a, c, t: c.cls == a.cls and c.key != a.key and c.rec.get('constm') and len(c.blocks) <= 4
-                   and c.short in ('capacity_left', 'cur_iteration')) if ct == 'iteration_allocator' else None
+            # the class's own const accessors are seen through, except the ones the expected terms are written in
+            own = (lambda a, c, t: bool(c.cls) and c.cls == a.cls and c.key != a.key and c.rec.get('constm') and len(c.blocks) <= 12
+                   and c.short not in ('block_end', 'block_start', 'node_size', 'top', 'next_capacity'))
             rets, _ = ret_canon(db, f, {0: 'i'} if f.params else {}, inline=own)
             r = rets[0] if rets else ''
+            if ct == 'iteration_allocator':
+                from rules import c07
+                r = c07.norm_end(r or '')
             inst = '%s [%s]' % (f.display, db.config)
             if re.match(pat, r or ''):
                 run.ok('R-COUNTER', inst, f.loc, r)
